@@ -1043,8 +1043,10 @@ class Deferred(Awaitable[_SelfResultT]):
             if current.paused:
                 # This Deferred isn't going to produce a result at all.  All the
                 # Deferreds up the chain waiting on it will just have to...
-                # wait.
-                return
+                # wait.  Whatever is below it on the stack is a Deferred whose
+                # result it received and which may have more callbacks to run.
+                chain.pop()
+                continue
 
             finished = True
             current._chainedTo = None
